@@ -76,11 +76,13 @@ CHECKS = {
         technique='Rocq proof (naturality, structural induction, no ring laws needed) + differential symbolic/numeric correspondence',
         ref='DESIGN.md 4 (C12)'),
     'C13': dict(
-        text='PARTIAL.  Theorem: results are independent of the symbol class used for code generation (two coefficient structures with '
-             'operation-preserving maps into a common target give equal images).  cse / wrapper / func_builder-vs-lambdify are printer glue: '
-             'differential check of all 16 option combinations against default options.  Graded-mode completeness is refuted for null '
-             'generators (known finding F5).',
-        technique='Rocq proof (naturality) for the symbol-class option + differential option-matrix correspondence for the rest',
+        text='PARTIAL.  Theorems: (1) results are independent of the symbol class used for code generation (two coefficient structures with '
+             'operation-preserving maps into a common target give equal images); (2) graded mode (Model/Graded.v, the completion of grades in '
+             'do_codegen and the grade-wise zero filter): for every well-formed algebra a graded result stores exactly the complete grades '
+             'occurring among the generated keys and holds on every blade the coefficient default mode computes; the filter keeps grades whole.  '
+             'cse / wrapper / func_builder-vs-lambdify are printer glue: differential check of all 16 option combinations against default '
+             'options, graded results against the model evaluated in Coq.',
+        technique='Rocq proof (naturality; list/dictionary reasoning for the graded completion) + differential option-matrix correspondence',
         ref='DESIGN.md 4 (C13)'),
     'C14': dict(
         text='Theorems (Theory/Relabel.v) for any two well-formed algebras A, D with equal signature list and start index (D = the default '
@@ -95,6 +97,16 @@ CHECKS = {
              'equation are evaluated in Coq against the implementation for every explored basis.',
         technique='Rocq proof (closed form of the computed sign, re-indexing of finite sums along the key bijection) + in-Coq and differential correspondence',
         ref='DESIGN.md 4 (C14)'),
+    'C15': dict(
+        text='Theorems about Model/Construct.v (MultiVector.__new__ statement by statement: keyword re-keying by _blade2canon parity, key '
+             'sanitation, grades, graded checks incl. the Mapping branch, the four input kinds; __getattr__ / __contains__ / items / asfullmv / '
+             'map / filter / grade; the convenience constructors), for every well-formed algebra and coefficient type: each construction form '
+             'round-trips exactly (stored keys = supplied blades, every accessor reads back the supplied coefficient, parity rule for any '
+             'permuted spelling, absent and unknown names read 0), and the constructor raises EXACTLY for length mismatch, keys outside the '
+             'declared grades, invalid grades, incomplete grades in graded mode and unknown names (iff per form).  Excluded by hypothesis '
+             '(outside the property): the same blade supplied twice, repeated generators in a spelling, duplicate keys.',
+        technique='Rocq proof (dictionary-fold invariants, swap-parity theorem lifted to spellings, iff characterisation by bind inversion) + in-Coq differential correspondence of all forms x spellings x malformed inputs',
+        ref='DESIGN.md 4 (C15)'),
     'C16': dict(
         text='Theorems: the operand-order table of all infix/reflected dunders is re-derived from multivector.py on every run and proved to '
              'keep (left, right); indexing array-valued coefficients commutes literally with every operator (pointwise structure).  '
